@@ -75,6 +75,9 @@ func RunOne(t *testing.T, mk func() World, tape *Tape, lim Limits, keepLog bool)
 	})
 	defer wd.Stop()
 
+	if ResetLockstep != nil {
+		ResetLockstep()
+	}
 	rand.Seed(int64(tape.Seed)) // math/rand global: jitter in jsonclient, trillian backoff, ctpolicy sampling
 	cryptotest.SetGlobalRandom(t, tape.Seed)
 
@@ -209,6 +212,9 @@ func RunTimed(t *testing.T, mk func() World, seed uint64) (res RunResult) {
 		os.Exit(2)
 	})
 	defer wd.Stop()
+	if ResetLockstep != nil {
+		ResetLockstep()
+	}
 	rand.Seed(int64(seed))
 	cryptotest.SetGlobalRandom(t, seed)
 	tape := NewSeedTape(seed)
